@@ -93,6 +93,8 @@ structure Fsm where
   index : Nat := 0
   term : Nat := 0
   applied : List String := []
+  /-- last configuration entry applied or restored: the configuration in force at `index` -/
+  config : Config := {}
   deriving DecidableEq, Repr, Inhabited
 
 /-- A snapshot on disk: `<index>.meta` + `<index>.snap`. -/
@@ -172,7 +174,8 @@ structure Node where
   closed : String := ""            -- "" = running, else closeReason
   -- oracle inputs of the current step
   rollAt : List Nat := []
-  order : List Nat := []
+  /-- Go map iteration orders over `l.repls`, one per iteration (consumed front to back) -/
+  orders : List (List Nat) := []
   -- ghost outputs of the current step
   replies : List Reply := []
   rpcReply : Option RpcReply := none
@@ -188,8 +191,8 @@ def durable (s : Node) : Durable :=
     log := s.log.durable, snaps := s.snapsDisk }
 
 /-- Start of a step: clear ghost outputs, install oracles. -/
-def begin (s : Node) (rollAt order : List Nat) : Node :=
-  { s with rollAt := rollAt, order := order, replies := [], rpcReply := none, result := 0, trace := [],
+def begin (s : Node) (rollAt : List Nat) (orders : List (List Nat)) : Node :=
+  { s with rollAt := rollAt, orders := orders, replies := [], rpcReply := none, result := 0, trace := [],
            panicked := none }
 
 def panic (s : Node) (site : String) : Node :=
@@ -204,6 +207,8 @@ def reply (s : Node) (task : Nat) (result : String) : Node :=
   if task = 0 then s else { s with replies := s.replies ++ [{ task := task, result := result }] }
 
 def setRole (s : Node) (r : Role) : Node := { s with role := r }
+/-- one iteration over `l.repls` has used up its order -/
+def popOrder (s : Node) : Node := { s with orders := s.orders.tail }
 def withLdr (s : Node) (l : Leader) : Node := { s with ldr := l }
 def withFsm (s : Node) (f : Fsm) : Node := { s with fsm := f }
 def withVotesNeeded (s : Node) (v : Int) : Node := { s with votesNeeded := v }
@@ -277,7 +282,7 @@ def canon (s : Node) : Node :=
   { s with ldr := (if s.role = .leader then s.ldr else {}),
            replies := s.replies.foldl (fun acc r => insertReply r acc) [],
            votesNeeded := if s.role = .candidate then s.votesNeeded else 0,
-           rollAt := [], order := [], trace := [], result := 0 }
+           rollAt := [], orders := [], trace := [], result := 0 }
 
 /-- `notLeaderError(r, lost)` canonical form. -/
 def notLeader (s : Node) (lost : Bool) : String :=
